@@ -140,6 +140,11 @@ def is_free(f, files, before):
 def oracle_runs(case, obs):
     files = analyse(case, obs)
     before, after = obs["before"], obs["after"]
+    if not case["dry"]:
+        for src, dst, existed in obs.get("prompts", []):
+            if not existed:
+                return (f"the user was prompted about {src!r} -> {dst!r} ('targets already existing file') although that "
+                        f"destination did not exist at that moment")
     conflict_msg = "already exists" in obs["err"] and "Could not rename" in obs["err"]
     if conflict_msg and obs["rc"] != 1:
         return f"a run stopped by a destination conflict must exit with status 1, it exits with {obs['rc']}"
@@ -200,6 +205,31 @@ def classify_runs(case, obs):
             "answers:%d" % len(case["answers"]), "model:" + str(obs.get("model", "?"))[:10]]
 
 
+# ------------------------------------------------------------------ manual answers vs the corresponding flag
+def gen_mvf(rng, n, tier):
+    for _ in range(n):
+        c = fsrun.gen_scenario(rng, dry=False, fault=False, links=False, strategies=("stop", "ignore", "override"),
+                               universe_name=["a", "b", "c", "d", "x", "y", "e.txt"],
+                               universe_path=["a", "b", "c", "x", "y", "s/x", "s/a", "t/y"])
+        yield c
+
+
+def impl_mvf(case):
+    flag = fsrun.observe(case)
+    manual_case = dict(case, strategy="manual", answers=[[case["strategy"]]] * 12)
+    manual = fsrun.observe(manual_case)
+    tree = lambda o: {p: v[0] for p, v in o["after"].items()}
+    return {"flag": {"rc": flag["rc"], "events": flag["events"], "tree": tree(flag)},
+            "manual": {"rc": manual["rc"], "events": manual["events"], "tree": tree(manual)}}
+
+
+def oracle_mvf(case, obs):
+    if obs["flag"] != obs["manual"]:
+        return (f"answering {case['strategy']!r} at every prompt differs from the flag: flag -> status {obs['flag']['rc']} "
+                f"renames {obs['flag']['events'][:4]}; manual -> status {obs['manual']['rc']} renames {obs['manual']['events'][:4]}")
+    return None
+
+
 def streams(tier):
     from .c01 import shrink_runs
     return [
@@ -208,4 +238,7 @@ def streams(tier):
         Stream("runs", gen_runs, fsrun.observe, lambda c: ["isspace 0 1"], lambda c, a: {}, oracle=oracle_runs,
                compare=compare_runs, nontrivial=lambda c, o: "already exists" in o["err"] or len(o["events"]) != len(o["ops"]) or any(e[2] for e in o["events"]),
                classify=classify_runs, shrink=shrink_runs, parallel=True, quick=2500, thorough=30000),
+        Stream("manual_vs_flag", gen_mvf, impl_mvf, oracle=oracle_mvf, shrink=shrink_runs, parallel=True,
+               nontrivial=lambda c, o: any(e[2] for e in o["flag"]["events"]) or o["flag"]["rc"] == 1 or len(o["flag"]["events"]) >= 2,
+               classify=lambda c, o: ["strategy:" + c["strategy"], "rc:%s" % o["flag"]["rc"]], quick=1200, thorough=15000),
     ]
